@@ -569,6 +569,130 @@ fn scenario_deadletters(seed: u64) {
 }
 
 // ------------------------------------------------------------------------------------------------
+// C01/C02/C03/C06 under real parallelism: async clients on a 2-worker runtime, so that the actor loop
+// and its clients really run on different threads and interleave *inside* what Engine S treats as one poll
+fn scenario_async_mt(seed: u64) {
+    let mut rng = Rng(seed);
+    let rt = rt();
+    let cap = [1usize, 2, 4][rng.below(3) as usize];
+    let (r, jh, journal, _g) = new_actor(&rt, cap, false);
+    let ending = rng.below(3); // 0 stop by one client, 1 all references dropped, 2 kill
+    let n_clients = 2 + rng.below(2);
+    let killed_at = Arc::new(AtomicU64::new(0));
+    let mut tasks = Vec::new();
+    for c in 0..n_clients {
+        let r = r.clone();
+        let mut crng = Rng(seed ^ (c + 1).wrapping_mul(0x5151));
+        let stopper = ending == 0 && c == 0;
+        let killer = ending == 2 && c == 0;
+        let journal = journal.clone();
+        let killed_at = killed_at.clone();
+        tasks.push(rt.spawn(async move {
+            let mut ok_before_stop: Vec<u64> = Vec::new();
+            let mut after_stop: Vec<u64> = Vec::new();
+            let mut order: Vec<u64> = Vec::new();
+            for i in 0..4u64 {
+                let id = (c + 1) * 100 + i;
+                let res = if crng.below(3) == 0 {
+                    match r.ask(Job(id, false)).await {
+                        Ok(rc) => {
+                            if rc.id != id {
+                                violation("C03", "reply-mismatch", format!("ask({id}) got the reply of {}", rc.id));
+                            }
+                            Ok(())
+                        }
+                        Err(e) => Err(e),
+                    }
+                } else {
+                    r.tell(Job(id, false)).await
+                };
+                if res.is_ok() {
+                    ok_before_stop.push(id);
+                    order.push(id);
+                }
+                if crng.below(3) == 0 {
+                    tokio::task::yield_now().await;
+                }
+            }
+            if stopper {
+                r.stop().await.unwrap();
+                // nothing sent after stop() returned may ever be handled
+                for i in 0..2u64 {
+                    let id = 900 + i;
+                    let _ = r.tell(Job(id, false)).await;
+                    after_stop.push(id);
+                }
+            }
+            if killer {
+                r.kill().unwrap();
+                killed_at.store(journal.lock().unwrap().handled.len() as u64 + 1, Ordering::SeqCst);
+            }
+            drop(r);
+            (ok_before_stop, after_stop, order, stopper)
+        }));
+    }
+    drop(r);
+    let mut results = Vec::new();
+    for t in tasks {
+        results.push(rt.block_on(t).unwrap());
+    }
+    let out = rt.block_on(jh);
+    let j = journal.lock().unwrap();
+    ev(format!("async-mt ending={ending} cap={cap} handled={:?}", j.handled));
+    let mut sorted = j.handled.clone();
+    sorted.sort();
+    for w in sorted.windows(2) {
+        if w[0] == w[1] {
+            violation("C01", "handled-twice", format!("message {} handled twice", w[0]));
+        }
+    }
+    for (ok, after, order, stopper) in &results {
+        let pos: Vec<Option<usize>> = order.iter().map(|id| j.handled.iter().position(|x| x == id)).collect();
+        for w in pos.windows(2) {
+            if let (Some(a), Some(b)) = (w[0], w[1]) {
+                if a > b {
+                    violation("C02", "order-inverted", format!("a client's messages {order:?} were handled as {:?}", j.handled));
+                }
+            }
+        }
+        for id in after {
+            if j.handled.contains(id) {
+                violation("C02", "handled-after-stop-returned", format!("message {id} was sent after stop() had returned and was handled"));
+            }
+        }
+        // graceful endings never discard accepted work (the stopper's own earlier messages; with
+        // last-drop endings everybody's)
+        if (ending == 0 && *stopper) || ending == 1 {
+            for id in ok {
+                if !j.handled.contains(id) {
+                    violation("C01", "accepted-not-handled", format!("message {id} was accepted before stop / last drop but never handled (handled: {:?})", j.handled));
+                }
+            }
+        }
+    }
+    match (&out, ending) {
+        (Ok(res), 0) | (Ok(res), 1) => {
+            if !res.stopped_normally() {
+                violation("C05", "result-mismatch", "graceful ending did not report Completed{killed:false}".into());
+            }
+        }
+        (Ok(res), _) => {
+            if !res.was_killed() {
+                violation("C06", "kill-not-reported", "killed actor did not report killed=true".into());
+            }
+            let k = killed_at.load(Ordering::SeqCst);
+            if k > 0 && (j.handled.len() as u64) > k + 1 {
+                violation("C06", "handlers-after-kill", format!("{} handlers ran although kill() had returned after at most {} of them had started", j.handled.len(), k));
+            }
+        }
+        (Err(e), _) => violation("C07", "unexpected-panic", format!("actor task failed: {e}")),
+    }
+    if !j.stopped {
+        violation("C04", "on_stop-skipped", "on_stop did not run".into());
+    }
+}
+
+// ------------------------------------------------------------------------------------------------
 // hang oracle self-test: a blocking_ask(None) on an actor gated shut forever must make Miri report
 // a deadlock (used only by the engine's self-test, never by a property check)
 fn scenario_selftest_hang(_seed: u64) {
@@ -594,6 +718,7 @@ fn main() {
         "timeout" => scenario_timeout(seed),
         "in_runtime" => scenario_in_runtime(seed),
         "contended" => scenario_contended(seed),
+        "async_mt" => scenario_async_mt(seed),
         "deadletters" => scenario_deadletters(seed),
         "selftest_hang" => scenario_selftest_hang(seed),
         other => {
